@@ -161,6 +161,10 @@ def discharge_quick(ob: Obligation) -> str | None:
     if r == z3.unsat:
         ob.status, ob.backend = "discharged", "z3"
         return None
+    if ob.kind != "vacuity" and r != z3.sat and _abstracted_unsat(forms):
+        ob.time_s = time.time() - t0
+        ob.status, ob.backend = "discharged", "z3-abstracted"
+        return None
     ob.status = "pending"
     if r == z3.sat and model_validates(s):
         try:
@@ -168,6 +172,45 @@ def discharge_quick(ob: Obligation) -> str | None:
         except z3.Z3Exception:
             pass
     return smt2_of(s)
+
+
+def _abstracted_unsat(forms: list) -> bool:
+    """Term abstraction: every slice (seq.extract) and every conditional of sequence sort is replaced, consistently, by a fresh
+    constant.  The abstracted query is weaker in its hypotheses' meaning only in that those terms lose their interpretation, so
+    `unsat` of the abstraction implies `unsat` of the original (each abstract counter-model-free proof is an instance).  It lets
+    the solver do the concatenation / congruence reasoning of buffer bookkeeping without case-splitting on slice bounds."""
+    table: dict = {}
+    memo: dict = {}
+
+    def absx(e):
+        k = e.get_id()
+        if k in memo:
+            return memo[k]
+        if z3.is_quantifier(e):
+            r = e
+        elif z3.is_app(e) and (e.decl().kind() == z3.Z3_OP_SEQ_EXTRACT or (e.decl().kind() == z3.Z3_OP_ITE and z3.is_seq(e))):
+            key = e.sexpr()
+            if key not in table:
+                table[key] = z3.Const(f"abs!{len(table)}", e.sort())
+            r = table[key]
+        elif z3.is_app(e) and e.num_args():
+            r = e.decl()(*[absx(c) for c in e.children()])
+        else:
+            r = e
+        memo[k] = r
+        return r
+
+    try:
+        fs = [absx(f) for f in forms]
+    except z3.Z3Exception:
+        return False
+    if not table:
+        return False
+    s = z3.Solver()
+    s.set("rlimit", Z3_QUICK_RLIMIT)
+    s.set("timeout", 10000)
+    s.add(*fs)
+    return s.check() == z3.unsat
 
 
 AXIOMATISED = {"occ", "pm", "first", "flat", "tl", "rk", "Resync", "isfirst", "nofirst"}
